@@ -30,8 +30,10 @@ func init() { register("C15", checkC15) }
 var guardTable = map[string]string{
 	"reservoir/cache.MemoryCache.entries":         "guard:F:reservoir/cache.MemoryCache.mu",
 	"reservoir/cache.FileCache.entriesMetadata":   "guard:F:reservoir/cache.FileCache.mu",
-	"reservoir/cache.EntryMetadata.LastAccess":    "guard:S",
-	"reservoir/cache.EntryMetadata.Expires":       "guard:S",
+	// two-lock discipline: written with the key's shard lock AND the backend's map lock held exclusively, read with
+	// either of them (the janitor's snapshot copies the metadata under the map read lock, requests read under the key lock)
+	"reservoir/cache.EntryMetadata.LastAccess":    "guard:S+MAP",
+	"reservoir/cache.EntryMetadata.Expires":       "guard:S+MAP",
 	"reservoir/utils/syncmap.SyncMap.ma":          "guard:F:reservoir/utils/syncmap.SyncMap.mu",
 	"reservoir/cache.cacheJanitor.interval":       "confined:(*reservoir/cache.cacheJanitor).start,(*reservoir/cache.cacheJanitor).start$1",                // set before the goroutine starts, afterwards only its loop touches it
 	"reservoir/cache.cacheJanitor.running":        "confined:(*reservoir/cache.cacheJanitor).start,(*reservoir/cache.cacheJanitor).stop",                   // lifecycle flag, owner-serial (constructor / Destroy)
@@ -346,6 +348,13 @@ func checkC15(c *Ctx, r *Report) {
 		}
 		acc = kept
 	}
+	// values handed to the body of a range-over-func loop are private when every implementation of the iterator yields
+	// a fresh copy (taken under a lock, see iteratorYieldsCopies): the janitor then works on snapshots of the metadata
+	for i := range acc {
+		if !acc[i].fresh && yieldedCopy(li, acc[i].in, r, c) {
+			acc[i].fresh = true
+		}
+	}
 	byField := map[string][]fieldAccess{}
 	for _, a := range acc {
 		byField[a.field] = append(byField[a.field], a)
@@ -362,7 +371,7 @@ func checkC15(c *Ctx, r *Report) {
 		switch {
 		case strings.HasPrefix(rule, "guard:"):
 			guard := LockClass(strings.TrimPrefix(rule, "guard:"))
-			guardExists := guard == "S"
+			guardExists := guard == "S" || guard == "S+MAP"
 			for i := range li.Ops {
 				if li.Ops[i].class == guard {
 					guardExists = true
@@ -388,6 +397,36 @@ func checkC15(c *Ctx, r *Report) {
 				}
 				held := li.HeldMust(a.in)
 				heldX := li.HeldMustX(a.in)
+				if guard == "S+MAP" {
+					hasMap := func(s lset) bool {
+						for cl := range s {
+							if isMapLock(cl) {
+								return true
+							}
+						}
+						return false
+					}
+					// a callback run by both backends (UpdateMetadata's modifier): the two map locks are different classes, so
+					// the intersection over callers loses them; look at each call site instead
+					if a.write && heldX["S"] && !hasMap(heldX) && len(li.Callers[a.fn]) > 0 {
+						everySite := true
+						for _, cs := range li.Callers[a.fn] {
+							hx := li.HeldMustX(cs.in)
+							if cs.isGo || !hx["S"] || !hasMap(hx) {
+								everySite = false
+							}
+						}
+						if everySite && len(li.May[a.in]) == 0 {
+							continue
+						}
+					}
+					if a.write && !(heldX["S"] && hasMap(heldX)) {
+						agg[kk] = append(agg[kk], fmt.Sprintf("%s at %s without both the key's shard lock and the map lock held exclusively (must-hold=%s, exclusive=%s)", a.what, c.InstrPos(a.in), held, heldX))
+					} else if !a.write && !(held["S"] || hasMap(held)) {
+						agg[kk] = append(agg[kk], fmt.Sprintf("%s at %s with neither the key's shard lock nor the map lock (must-hold=%s)", a.what, c.InstrPos(a.in), held))
+					}
+					continue
+				}
 				if a.write && !heldX[guard] {
 					agg[kk] = append(agg[kk], fmt.Sprintf("%s at %s without %s held exclusively (must-hold=%s, exclusive=%s)", a.what, c.InstrPos(a.in), guard, held, heldX))
 				} else if !a.write && !held[guard] {
@@ -735,4 +774,146 @@ func checkRuntimeGlobals(c *Ctx, r *Report, li *LockInfo) {
 		}
 	}
 	r.OkT("C15.R6", "package variables assigned at run time are self-synchronising or lock-protected", "-", fmt.Sprintf("%d functions reachable from run-time roots; %d such variables of a plain type", len(reach), n))
+}
+
+var yieldMemo = map[*ssa.Parameter]bool{}
+
+// yieldedCopy: the access `in` goes through a parameter of a range-over-func loop body (a closure passed as the
+// yield function to an iterator), and every iterator that can be called at that loop passes, for that parameter, the
+// address of a fresh local copy (`c := *p; yield(k, &c)`) made while a lock is held.
+func yieldedCopy(li *LockInfo, in ssa.Instruction, r *Report, c *Ctx) bool {
+	// base pointer of the field access
+	var base ssa.Value
+	switch x := in.(type) {
+	case *ssa.UnOp:
+		if fa, ok := x.X.(*ssa.FieldAddr); ok {
+			base = fa.X
+		} else {
+			base = x.X
+		}
+	case *ssa.Store:
+		if fa, ok := x.Addr.(*ssa.FieldAddr); ok {
+			base = fa.X
+		}
+	}
+	if base == nil {
+		return false
+	}
+	prm, ok := resolveVal(base).(*ssa.Parameter)
+	if !ok {
+		return false
+	}
+	if v, done := yieldMemo[prm]; done {
+		return v
+	}
+	yieldMemo[prm] = false
+	body := prm.Parent()
+	if body.Parent() == nil {
+		return false
+	}
+	idx := -1
+	for i, q := range body.Params {
+		if q == prm {
+			idx = i
+		}
+	}
+	// where the body closure is handed to an iterator: a call in the parent with the closure as argument
+	var iterImpls []*ssa.Function
+	eachInstr(body.Parent(), func(i2 ssa.Instruction) {
+		call, ok := i2.(*ssa.Call)
+		if !ok {
+			return
+		}
+		for _, a := range call.Call.Args {
+			if closureFn(a) == body {
+				iterImpls = append(iterImpls, li.Callees[i2]...)
+			}
+		}
+	})
+	if len(iterImpls) == 0 || idx < 0 {
+		return false
+	}
+	all := true
+	for _, it := range iterImpls {
+		if len(it.Params) == 0 {
+			all = false
+			continue
+		}
+		yieldP := it.Params[len(it.Params)-1]
+		nY := 0
+		eachInstr(it, func(i2 ssa.Instruction) {
+			call, ok := i2.(*ssa.Call)
+			if !ok || resolveVal(call.Call.Value) != ssa.Value(yieldP) {
+				return
+			}
+			nY++
+			if idx >= len(call.Call.Args) {
+				all = false
+				return
+			}
+			// the argument: a pointer taken from a map / slice of pointers that were each created as `&copy`
+			if !pointsToFreshCopies(it, call.Call.Args[idx], li) {
+				all = false
+			}
+		})
+		if nY == 0 {
+			all = false
+		}
+	}
+	yieldMemo[prm] = all
+	return all
+}
+
+// pointsToFreshCopies: v (in function f) is the address of a local made by copying a loaded struct, or an element
+// of a local map whose every inserted value is such an address; the copies are made while some lock is held.
+func pointsToFreshCopies(f *ssa.Function, v ssa.Value, li *LockInfo) bool {
+	isCopyAlloc := func(x ssa.Value) bool {
+		a, ok := resolveVal(x).(*ssa.Alloc)
+		if !ok {
+			return false
+		}
+		sts := storesTo(a)
+		if len(sts) != 1 {
+			return false
+		}
+		ld, ok := sts[0].Val.(*ssa.UnOp)
+		if !ok || ld.Op != token.MUL {
+			return false
+		}
+		return len(li.HeldMay(sts[0])) > 0 // copied while a lock is held
+	}
+	if isCopyAlloc(v) {
+		return true
+	}
+	// element of a local map: range / lookup over a map made in f
+	var m ssa.Value
+	switch x := resolveVal(v).(type) {
+	case *ssa.Extract:
+		if nx, ok := x.Tuple.(*ssa.Next); ok {
+			if rg, ok := nx.Iter.(*ssa.Range); ok {
+				m = rg.X
+			}
+		}
+	case *ssa.Lookup:
+		m = x.X
+	}
+	if m == nil {
+		return false
+	}
+	mk, ok := resolveVal(m).(*ssa.MakeMap)
+	if !ok {
+		return false
+	}
+	okAll, n := true, 0
+	if refs := mk.Referrers(); refs != nil {
+		for _, ref := range *refs {
+			if mu, ok := ref.(*ssa.MapUpdate); ok {
+				n++
+				if !isCopyAlloc(mu.Value) {
+					okAll = false
+				}
+			}
+		}
+	}
+	return okAll && n > 0
 }
